@@ -215,7 +215,9 @@ def run(tier, mode):
                 fail('roundtrip_' + nm, {'values': vals, 'text': text2}, b if isinstance(b, H.Exn) else cfg_vals(b), cfg_vals(c))
     # unknown names
     for bad in ['foo', 'clean', 'qq_depth_mid.2', 'layouts.TRS_desc', 'x=1', 'cleanqq', 'qq_depth_min_.2', 'parse', 'north', 'TRS',
-                'clean_qq.True.False', 'n,foo', 'clean_qq;bar.1']:
+                'clean_qq.True.False', 'n,foo', 'clean_qq;bar.1',
+                # runs of the one-letter direction settings are not settings (a blank typed for the comma: 'n s' is read as 'ns')
+                'ns', 'NS', 'n s', 'sN', 'ew', 'e w', 'wE', 'nsNS', 'clean_qq,ns', 'ew;qq_depth.3', 'nw', 'ne']:
         got = H.call(Config, bad)
         n_or += 1
         bump('unknown')
